@@ -15,72 +15,81 @@ namespace Walrus
 namespace C18
 open Walrus.Sem
 
-/-- replacing an imported function: the identifier now runs the new body, with the old signature … -/
+/-- replacing an imported function: the index keeps naming the same identifier (uid), which now
+    runs the new body, with the old signature and parameters … -/
 theorem imported_keeps_identifier_and_signature (E E' : Env) (k : Nat) (body : SL)
     (h : E.replaceImported k body = some E') :
-    ∃ fi, E.funcs[k]? = some fi ∧ fi.imp.isSome = true ∧ E'.funcs[k]? = some ⟨fi.sig, none, [], body⟩ := by
+    ∃ u fi, E.ftab[k]? = some u ∧ E.ufuncs[u]? = some fi ∧ fi.imp.isSome = true ∧ E'.ftab = E.ftab ∧
+      E'.ufuncs[u]? = some ⟨fi.sig, none, fi.lt.take fi.sig.1.length, body⟩ := by
   unfold Env.replaceImported at h
-  cases hk : E.funcs[k]? with
+  cases hk : E.ftab[k]? with
   | none => simp [hk] at h
-  | some fi =>
-    simp only [hk] at h
-    split at h
-    · rename_i hi
-      injection h with h; subst h
-      refine ⟨fi, rfl, hi, ?_⟩
-      have hlt : k < E.funcs.length := by
-        rcases List.getElem?_eq_some_iff.1 hk with ⟨hl, _⟩; exact hl
-      simp [hlt]
-    · cases h
+  | some u =>
+    cases hu : E.ufuncs[u]? with
+    | none => simp [hk, hu] at h
+    | some fi =>
+      simp only [hk, hu, Option.bind_some, Option.map_some] at h
+      split at h
+      · rename_i hi
+        injection h with h; subst h
+        have hlt : u < E.ufuncs.length := (List.getElem?_eq_some_iff.1 hu).1
+        exact ⟨u, fi, rfl, hu, hi, rfl, by simp [hlt]⟩
+      · cases h
 
-/-- … every other function, and the signature of every function, is untouched: callers, element
-    segments, exports and the start section (which all name identifiers) now reach the new body
-    and nothing else changed -/
+/-- … every other function, the signature of every function, the index table and the type section
+    are untouched: callers, element segments, exports and the start section (which all go through
+    the index table) now reach the new body and nothing else changed -/
 theorem imported_changes_nothing_else (E E' : Env) (k : Nat) (body : SL)
     (h : E.replaceImported k body = some E') :
-    E'.types = E.types ∧ E'.fsigs = E.fsigs ∧ E'.funcs.length = E.funcs.length ∧
-    ∀ j, j ≠ k → E'.funcs[j]? = E.funcs[j]? := by
+    E'.types = E.types ∧ E'.ftab = E.ftab ∧ E'.usigs = E.usigs ∧ E'.ufuncs.length = E.ufuncs.length ∧
+    ∀ u, E.ftab[k]? ≠ some u → E'.ufuncs[u]? = E.ufuncs[u]? := by
   unfold Env.replaceImported at h
-  cases hk : E.funcs[k]? with
+  cases hk : E.ftab[k]? with
   | none => simp [hk] at h
-  | some fi =>
-    simp only [hk] at h
-    split at h
-    · injection h with h; subst h
-      have hlt : k < E.funcs.length := by
-        rcases List.getElem?_eq_some_iff.1 hk with ⟨hl, _⟩; exact hl
-      have hget : E.funcs[k] = fi := by
-        rcases List.getElem?_eq_some_iff.1 hk with ⟨_, he⟩; exact he
-      refine ⟨rfl, ?_, by simp, ?_⟩
-      · simp only [Env.fsigs]
-        apply List.ext_getElem?
-        intro j
-        by_cases hj : j = k
-        · subst hj; simp [hlt, ← hget]
-        · simp [List.getElem?_set, Ne.symm hj]
-      · intro j hj
-        simp [List.getElem?_set, Ne.symm hj]
-    · cases h
+  | some u =>
+    cases hu : E.ufuncs[u]? with
+    | none => simp [hk, hu] at h
+    | some fi =>
+      simp only [hk, hu, Option.bind_some, Option.map_some] at h
+      split at h
+      · injection h with h; subst h
+        have hlt : u < E.ufuncs.length := (List.getElem?_eq_some_iff.1 hu).1
+        have hget : E.ufuncs[u] = fi := (List.getElem?_eq_some_iff.1 hu).2
+        refine ⟨rfl, rfl, ?_, by simp, ?_⟩
+        · simp only [Env.usigs]
+          apply List.ext_getElem?
+          intro j
+          by_cases hj : j = u
+          · subst hj; simp [hlt, ← hget]
+          · simp [List.getElem?_set, Ne.symm hj]
+        · intro j hj
+          have : j ≠ u := fun e => hj (by rw [e])
+          simp [List.getElem?_set, Ne.symm this]
+      · cases h
 
 /-- a function that is not imported cannot be replaced this way -/
-theorem imported_only (E : Env) (k : Nat) (body : SL) (fi : FuncInfo)
-    (hk : E.funcs[k]? = some fi) (hl : fi.imp = none) : E.replaceImported k body = none := by
-  simp [Env.replaceImported, hk, hl]
+theorem imported_only (E : Env) (k u : Nat) (body : SL) (fi : FuncInfo)
+    (hk : E.ftab[k]? = some u) (hu : E.ufuncs[u]? = some fi) (hl : fi.imp = none) :
+    E.replaceImported k body = none := by
+  simp [Env.replaceImported, hk, hu, hl]
 
 /-- replacing an exported function: exactly one export entry changes (same name, now the new
-    function), the original function and every existing function stay where they are — internal
-    callers keep reaching the original — and the new function has the original's signature -/
+    index), the index table is extended by one entry naming a new identifier, the original function
+    and every existing function stay where they are — internal callers keep reaching the original —
+    and the new function has the original's signature -/
 theorem exported_retargets_one_export (m m' : ModuleM) (E E' : Env) (f : Nat) (body : SL)
     (h : replaceExported m E f body = some (m', E')) :
-    ∃ ex fi, firstExportOf m f = some ex ∧ E.funcs[f]? = some fi ∧
+    ∃ ex fi, firstExportOf m f = some ex ∧ ((E.ftab[f]?).bind fun u => E.ufuncs[u]?) = some fi ∧
       m'.exports.length = m.exports.length ∧
       (∀ j, j ≠ ex → m'.exports[j]? = m.exports[j]?) ∧
-      m'.exports[ex]? = some ((m.exports[ex]?.map (·.1)).getD "", "f", E.funcs.length) ∧
-      (∀ j, j < E.funcs.length → E'.funcs[j]? = E.funcs[j]?) ∧
-      E'.funcs[E.funcs.length]? = some ⟨fi.sig, none, [], body⟩ ∧
+      m'.exports[ex]? = some ((m.exports[ex]?.map (·.1)).getD "", "f", E.ftab.length) ∧
+      (∀ j, j < E.ftab.length → E'.ftab[j]? = E.ftab[j]?) ∧
+      E'.ftab[E.ftab.length]? = some E.ufuncs.length ∧
+      (∀ u, u < E.ufuncs.length → E'.ufuncs[u]? = E.ufuncs[u]?) ∧
+      E'.ufuncs[E.ufuncs.length]? = some ⟨fi.sig, none, fi.lt.take fi.sig.1.length, body⟩ ∧
       m'.start = m.start ∧ m'.elems = m.elems ∧ m'.code = m.code ∧ m'.imports = m.imports := by
   unfold replaceExported at h
-  cases hf : E.funcs[f]? with
+  cases hf : ((E.ftab[f]?).bind fun u => E.ufuncs[u]?) with
   | none => simp [hf] at h
   | some fi =>
     cases he : firstExportOf m f with
@@ -98,14 +107,16 @@ theorem exported_retargets_one_export (m m' : ModuleM) (E E' : Env) (f : Nat) (b
           split at he
           · injection he with he; subst he; assumption
           · cases he
-        refine ⟨ex, fi, rfl, rfl, by simp, ?_, by simp [hex], ?_, by simp, rfl, rfl, rfl, rfl⟩
+        refine ⟨ex, fi, rfl, rfl, by simp, ?_, by simp [hex], ?_, by simp, ?_, by simp, rfl, rfl, rfl, rfl⟩
         · intro j hj
           simp [List.getElem?_set, Ne.symm hj]
         · intro j hj
           simp [List.getElem?_append_left hj]
+        · intro j hj
+          simp [List.getElem?_append_left hj]
 
 -- non-vacuity
-def env2 : Env := ⟨[([], [])], [⟨([], []), some ("env", "f"), [], .nil⟩, ⟨([], []), none, [], .nil⟩]⟩
+def env2 : Env := ⟨[([], [])], [0, 1], [⟨([], []), some ("env", "f"), [], .nil⟩, ⟨([], []), none, [], .nil⟩]⟩
 example : (env2.replaceImported 0 (.cons (.op ⟨"Nop", []⟩) .nil)).isSome = true := by decide
 example : (env2.replaceImported 1 .nil).isNone = true := by decide
 example : (replaceExported { exports := [("a", "f", 1), ("b", "f", 1)] } env2 1 .nil).map (·.1.exports) =
